@@ -335,8 +335,9 @@ def small_alphabet(tier):
 
 CORPUS = [
     # (famA, famB, flags, ops) - fixed histories run first (past findings and corner cases)
-    ("flat3", "flat3", "1w", ["av,0,0,%s" % hx("5")]),                               # F1: non-dictionary accepted as a page
-    ("flat3", "flat3", "1w", ["ap,0,0,2,0"]),                                        # F1: the /Pages node itself
+    ("flat3", "flat3", "1w", ["av,0,0,%s" % hx("5")]),                               # F1a (fixed by 53c36690): a non-dictionary must not become a page
+    ("flat3", "flat3", "1w", ["ap,0,0,2,0"]),                                        # F1a: nor the /Pages node itself
+    ("flat3", "flat3", "1w", ["av,0,0,%s" % hx("null")]),                            # F1: a null still is accepted
     ("flat3", "flat3", "1w", ["rm,0,1,@l1"]),                                        # F2 (fixed by 87382fd8): a foreign handle must not identify a local page by number
     ("flat3", "flat3", "1w", ["aa,0,0,@l0,1,1,@l2"]),                                # F2
     ("flat3", "nested0", "2w", ["ap,0,1,@l4,0", "ap,0,1,@l4,1", "cf,0,1,@l0", "ap,0,1,@l0,0", "rm,0,0,@l0", "ap,0,0,@n0,1"]),
@@ -494,8 +495,8 @@ def translate(op, L, K):
 
     def why_not(s, i):
         if i not in K[s]:
-            return "nondict"
-        return {"P": "pages-node", "C": "catalog"}.get(K[s][i][1], "?")
+            return "nondict"          # operands are always existing objects (the driver resolves them against the state)
+        return {"P": "pages-node", "C": "catalog", "z": "null"}.get(K[s][i][1], "?")
 
     def mk(s, i):
         return K[s][i][0]
@@ -511,7 +512,7 @@ def translate(op, L, K):
         d, f = int(op[1]), int(op[2])
         txt = bytes.fromhex(op[3]).decode()
         if not txt.startswith("<<"):
-            return "x", "C13:insert-non-page:nondict", None
+            return "x", "C13:insert-non-page:" + ("null" if txt.strip() == "null" else "nondict"), None
         m = re.search(r"/Mk (\d+)", txt)
         return "i,%d,%d,%d" % (d, 0 if f else len(L[d]), int(m.group(1)) if m else -1), None, "ok"
     if o in ("aa", "ha"):
